@@ -30,9 +30,13 @@ class Stream(object):
         self.log = []
 
     def randn(self, *shape):
-        v = self.rng.gauss(0, 1) * self.rng.choice([1, 1, 1, 3, 8])
-        self.log.append(v)
-        return np.array([v]) if shape else v
+        n = int(np.prod(shape)) if shape else 1
+        vs = []
+        for _ in range(n):
+            v = self.rng.gauss(0, 1) * self.rng.choice([1, 1, 1, 3, 8])
+            self.log.append(v)
+            vs.append(v)
+        return np.array(vs).reshape(shape) if shape else vs[0]
 
     def rand(self, *shape):
         v = self.rng.random()
@@ -88,6 +92,38 @@ def coq_f(x):
 
 def flist(xs):
     return core.coq_list([coq_f(x) for x in xs])
+
+
+def balancing_draw_oracle(R, mc, n):
+    """the balancing pair drawn for a double-couple -> full-tensor jump lies inside the lune and each coordinate is its own width
+    (gamma_dc, delta_dc; unequal here) times one of the standard normal draws made (heavy-tailed scripted stream, so redraws happen)"""
+    bad = None
+    real_randn, real_rand = np.random.randn, np.random.rand
+    try:
+        for i in range(n):
+            sg, sd = R.rng.choice([0.2, R.rng.uniform(0.05, 0.5)]), R.rng.choice([0.2, R.rng.uniform(0.05, 0.8)])
+            gaussj = R.rng.random() < 0.8
+            alg = mc.IterativeTransDMetropolisHastingsGaussianTape(learning_length=10, chain_length=10, acceptance_rate_window=5, initial_sample='none',
+                                                                     dc_sigma_g=sg, dc_sigma_d=sd, gaussian_jump_params=gaussj)
+            st = Stream(R.rng)
+            np.random.randn, np.random.rand = st.randn, st.rand
+            try:
+                g, d = [float(np.asarray(v).flatten()[0]) for v in alg.jump_params()]
+            except Exception as ex:
+                bad = bad or {'kind': 'balancing draw', 'check': 'balancing draw raised %s: %s' % (type(ex).__name__, ex), 'widths': [sg, sd], 'gaussian': gaussj}
+                continue
+            finally:
+                np.random.randn, np.random.rand = real_randn, real_rand
+            zs = [v for v in st.log if not isinstance(v, tuple)]
+            R.count(('balancing', i), nontrivial=len(st.log) > 2)
+            case = {'kind': 'balancing draw', 'gaussian': gaussj, 'widths': [sg, sd], 'draws': st.log, 'gamma': g, 'delta': d}
+            if not (abs(g) <= PI / 6 and abs(d) <= PI / 2):
+                bad = bad or dict(case, check='balancing pair inside the lune (|gamma| <= pi/6, |delta| <= pi/2)')
+            elif gaussj and not (any(abs(g - sg * z) <= 1e-12 for z in zs) and any(abs(d - sd * z) <= 1e-12 for z in zs)):
+                bad = bad or dict(case, check='balancing pair = (gamma width, delta width) x standard normal draws made')
+    finally:
+        np.random.randn, np.random.rand = real_randn, real_rand
+    return bad
 
 
 def run(R):
@@ -167,6 +203,9 @@ def run(R):
                     R.signal('correspondence', {'case': case, 'model': mv})
     finally:
         np.random.randn, np.random.rand = real_randn, real_rand
+    # 1b. the dimension-balancing pair of a double-couple -> full-tensor jump (shared with C05: the density in the acceptance must be
+    # the density of THIS draw)
+    bad = bad or balancing_draw_oracle(R, mc, R.n(400, 8000))
     # 2. model jumps through whole iterations of a trans-dimensional chain
     for i in range(R.n(40, 600)):
         np.random.seed(R.rng.randrange(2 ** 31))
